@@ -1,4 +1,4 @@
-\* ring buffer in lock step with the abstract window: every configuration, one group
+\* transition cover of the ring branches (see CoverNotHit); checks/c03.py runs it once per branch
 SPECIFICATION RSpec
 CONSTANTS
     Groups = {"a"}
@@ -6,15 +6,9 @@ CONSTANTS
     Everys = {0, 1, 2, 3, 4, 5}
     Aligns = {FALSE, TRUE}
     Fills = {FALSE, TRUE}
-    MaxTime = 7
+    MaxTime = 6
     MaxPoints = 6
     PurgeGuard = TRUE
 INVARIANTS
-    TypeOK
-    WindowContents
-    EmitSchedule
-    BufIsSuffix
-    RingRefinesSeq
-    RingEmitsBuf
-    RingWellFormed
+    CoverNotHit
 CHECK_DEADLOCK FALSE
